@@ -255,7 +255,18 @@ def space(ctx):
         binary = G.Enumerator(dict(_CFG, arities=(2,)))
         for T in 'irl':
             items += binary.exactly(T, 2)
-        bound = dict(max_operator_nodes=2, two_operator_trees='binary nodes only', flag_subsets=7)
+        red3 = G.Enumerator(dict(_CFG, forms=('plain',), arities=(2,), int_lits=(-3,), real_lits=('0.5',),
+                                 log_lits=(True,)))
+        nneg = 0
+        for T in 'ir':
+            for t in red3.exactly(T, 3):
+                if G.count_heads(t, ('neg',)):     # subtraction / sign forms: a - (b + c), (-a)*(-b), ...
+                    items.append(t)
+                    nneg += 1
+        bound = dict(max_operator_nodes=2, two_operator_trees='binary nodes only', flag_subsets=7,
+                     three_operator_trees_with_unary_minus=nneg,
+                     three_operator_alphabet='integer and real trees, 2 variables + 1 literal (int -3, real 0.5), plain '
+                                             'binary nodes, >= 1 unary minus')
     else:
         for n in (0, 1):
             for T in 'irl':
